@@ -41,3 +41,61 @@ Proof. intros. reflexivity. Qed.
 
 Print Assumptions C03_decision_is_reported_list.
 Print Assumptions C03_add_present.
+
+(* ---------- interleaved semantics (Model/Conc.v): every schedule of suspended requests, disconnects, time-outs ---------- *)
+From Coq Require Import List NArith.
+From NW Require Import Model.Conc Proofs.ConcDefs Proofs.ConcEv Proofs.ConcInv Proofs.ConcSmall Proofs.ConcMore Proofs.ConcProgress Proofs.ConcSource Gen.ConcFlags.
+Import ListNotations.
+Local Open Scope N_scope.
+
+Theorem C03_conc_acl_report_is_current :
+  forall (cf : ccfg) (es : list ev) (e : ev) (c : conn) (id : N) (l : list user),
+    let s := cstate_after cf es in
+    In (OAcl c id l) (snd (cstep cf s e)) ->
+    exists (t : tid) (k : task) (ok : bool) (hint : user) (ch : chan) 
+    (o : oid) (ty : N),
+      e = ERun t ok hint /\
+      In (t, k) (tasks s) /\
+      t_conn k = Some c /\
+      (t_pc k = PStart (RGetAcl ch ty id) /\ cmap (cg s) ch = Some o \/
+       t_pc k = PGetAclWait ch o ty id) /\
+      l = acl_of (objs (cg s) o) ty /\ is_owner (objs (cg s) o) (t_me k) = true.
+Proof. exact conc_acl_report_is_current. Qed.
+
+Theorem C03_conc_set_acl_exact :
+  forall (cf : ccfg) (es : list ev) (t : tid) (ok : bool) (hint : user) (c : conn) (id : N),
+    let s := cstate_after cf es in
+    let s' := fst (cstep cf s (ERun t ok hint)) in
+    In (OAck c id A_SETACL) (snd (cstep cf s (ERun t ok hint))) ->
+    exists (k : task) (ch : chan) (o : oid) (ty : N) (adding : bool) 
+    (us : list user),
+      In (t, k) (tasks s) /\
+      t_conn k = Some c /\
+      (t_pc k = PStart (RSetAcl ch ty adding us id) /\ cmap (cg s) ch = Some o \/
+       t_pc k = PSetAclWait ch o ty adding us id) /\
+      is_owner (objs (cg s) o) (t_me k) = true /\
+      acl_of (objs (cg s') o) ty = acl_update (acl_of (objs (cg s) o) ty) us adding /\
+      (forall ty' : N,
+       acl_class ty' <> acl_class ty -> acl_of (objs (cg s') o) ty' = acl_of (objs (cg s) o) ty') /\
+      members (objs (cg s') o) = members (objs (cg s) o) /\
+      owner (objs (cg s') o) = owner (objs (cg s) o) /\
+      (forall o' : oid, o' <> o -> objs (cg s') o' = objs (cg s) o').
+Proof. exact conc_set_acl_exact. Qed.
+
+Theorem C03_conc_join_respects_list :
+  forall (cf : ccfg) (es : list ev) (t : tid) (ok : bool) (hint : user) (o : oid) (n : user),
+    let s := cstate_after cf es in
+    let s' := fst (cstep cf s (ERun t ok hint)) in
+    ~ In n (members (objs (cg s) o)) ->
+    In n (members (objs (cg s') o)) -> allowed (jacl (objs (cg s) o)) n = true.
+Proof. exact conc_join_respects_list. Qed.
+
+Theorem C03_conc_targets_cache :
+  forall (cf : ccfg) (es : list ev) (o : oid),
+    let g := cg (cstate_after cf es) in
+    targets (objs g o) = filter (allowed (racl (objs g o))) (members (objs g o)).
+Proof. exact conc_targets_cache. Qed.
+
+Theorem C03_source_segment_layout :
+  forallb snd conc_source_shape = true.
+Proof. exact source_segment_layout. Qed.
